@@ -254,7 +254,7 @@ pub fn run(ctx: &mut Ctx) {
     }
 
     // 3. generated pairs
-    let n = ctx.n(14_000, 400_000);
+    let n = ctx.n(40_000, 400_000);
     for _ in 0..n {
         let a = gen_base(&mut r);
         let b = match r.below(10) {
@@ -285,7 +285,7 @@ pub fn run(ctx: &mut Ctx) {
         emit_pair(ctx, a.framing, nw, &a.build(), &b.build());
     }
     // 4. generated single frames (the malformed stream of C15) with every worker count
-    let n = ctx.n(6_000, 150_000);
+    let n = ctx.n(20_000, 150_000);
     for i in 0..n {
         let f = gen_frame(&mut r).build();
         emit_w(ctx, if i % 97 == 0 { 0 } else { 1 + (i % 64) }, &f);
